@@ -798,8 +798,10 @@ def c05_gpg(ctx, r, quick):
                     open(os.path.join(mtree, 'a'), 'w').write('a\n')
                     ins_tried = ins_rejected = 0
                     # (no white space: trailing white space of a line is not covered by a cleartext signature)
-                    for ins in (b'\xff', b'\xc3', b'\x80', b'\xfe\xff', b'X', b'\xc3\xa9'):
-                        for at in sorted({b0, b0 + 5, (b0 + b1) // 2, b1 - 1}):
+                    # ... but white space at the START of a signed line is covered
+                    line_starts = sorted({b0} | {k + 1 for k in range(b0, b1 - 1) if raw[k:k + 1] == b'\n'})
+                    for ins in (b'\xff', b'\xc3', b'\x80', b'\xfe\xff', b'X', b'\xc3\xa9', b' ', b'\t', b'  \t'):
+                        for at in (sorted({b0, b0 + 5, (b0 + b1) // 2, b1 - 1}) if ins.strip() else line_starts[:3]):
                             open(os.path.join(mtree, 'Manifest'), 'wb').write(raw[:at] + ins + raw[at:])
                             ins_tried += 1
                             n += 1
